@@ -1,6 +1,6 @@
 (* C19 - try_first / try_last priorities are honoured among ready tasks. *)
 From Coq Require Import Sorting.Permutation.
-From Verif Require Import Base.Prelude Model.Sorter Proofs.SorterProofs Proofs.SorterTies.
+From Verif Require Import Base.Prelude Model.Sorter Proofs.SorterProofs Proofs.SorterTies Proofs.FactsSorter Gen.SorterFacts.
 Local Open Scope Z_scope.
 
 (* The scheduler's algorithm (sort the ready set, in any set-iteration order, by
@@ -64,6 +64,19 @@ Example C19_ties_example :
   get_ready s 2 [1;2;3;4]%N = [3;1]%N /\ get_ready s 2 [4;3;2;1]%N = [2;1]%N /\ pr s 2%N = pr s 3%N.
 Proof. exact ties_example. Qed.
 
+(* the numbers behind the markers, the default and the direction of the sort are those of
+   dag_utils.py (extracted on every run): try_last < unmarked = default < try_first, ascending
+   sort, last n taken - so "higher pr" in the theorems above means "try_first before unmarked
+   before try_last" in the code *)
+Theorem C19_marker_order_extracted :
+  x_prio_try_last < x_prio_unmarked /\ x_prio_unmarked = x_prio_default /\ x_prio_unmarked < x_prio_try_first /\
+  x_sort_reverse = false /\ x_take_last = true /\ (forall v, prio_of [] v = x_prio_default).
+Proof.
+  pose proof sorter_marker_order_ok as (A & B & C). pose proof sorter_direction_ok as (D & E).
+  repeat split; auto using sorter_default_ok.
+Qed.
+
+Print Assumptions C19_marker_order_extracted.
 Print Assumptions C19_batches_differ_only_in_ties.
 Print Assumptions C19_get_ready_order_independent.
 Print Assumptions C19_get_ready_valid.
